@@ -9,6 +9,7 @@ package c40
 import (
 	"encoding/json"
 	"fmt"
+	"os"
 	"path/filepath"
 	"runtime"
 	"sort"
@@ -20,10 +21,14 @@ import (
 	"github.com/goplus/xgo/x/watcher"
 	"pgregory.net/rapid"
 
+	"verif/internal/gen/supervise"
 	"verif/internal/vk"
 )
 
 func TestMain(m *testing.M) {
+	if code, parent := supervise.Run("C40", "panic: "); parent {
+		os.Exit(code)
+	}
 	watcher.VerifHook = dispatch
 	vk.Main(m, "C40", "exploration",
 		"histories over one watcher.Changes: 1-3 producers each calling FileChanged(dir/file) for a drawn list over at most 4 directories (incl. '.', nested), 1-3 fetchers each calling Fetch (fullPath drawn) a drawn number of times, all concurrent; a drawn script says for the k-th arrival at a point (op start, fetch:before-wait, fetch:after-wait, fetch:took, report:inserted, report:unlocked = between unlock and Broadcast): Gosched x n and, outside the mutex, park until (fetchers in Wait >= n | takes >= n | inserts >= n); a deterministic deadlock breaker releases the oldest park when every goroutine is blocked. When producers are done and every fetcher has returned or sits in cond.Wait, the harness feeds fresh directories until all fetchers are done, then drains. "+
